@@ -5,6 +5,7 @@ package eng
 // calls Service.Listen with descriptors 3,4,5 inherited from the harness.
 
 import (
+	"runtime"
 	"bufio"
 	"bytes"
 	"context"
@@ -76,11 +77,47 @@ func init() {
 			}
 			time.Sleep(100 * time.Microsecond)
 		}
-		// wait for the parent to close stdin
-		buf := make([]byte, 16)
-		for {
-			if _, err := os.Stdin.Read(buf); err != nil {
+		// the parent closes stdin (end) or writes a line (next serve period of the same object, after a Shutdown and two
+		// garbage collections, with the address argument + "-p<n>")
+		in := bufio.NewReader(os.Stdin)
+		for period := 2; ; period++ {
+			if _, err := in.ReadString('\n'); err != nil {
 				break
+			}
+			svc.Shutdown()
+			select {
+			case <-done:
+			case <-time.After(5 * time.Second):
+			}
+			runtime.GC()
+			runtime.GC()
+			go func() {
+				defer func() {
+					if x := recover(); x != nil {
+						fmt.Println("PANIC", x)
+						os.Exit(7)
+					}
+				}()
+				done <- svc.Listen(context.Background(), fmt.Sprintf("%s-p%d", a[0], period), 0)
+			}()
+			ready := false
+			for i := 0; i < 100000 && !ready; i++ {
+				if l, _ := svc.GetListener(); l != nil {
+					fmt.Println("READY", l.Addr().String())
+					ready = true
+					break
+				}
+				select {
+				case err := <-done:
+					fmt.Println("FAILED", err)
+					os.Exit(1)
+				default:
+				}
+				time.Sleep(100 * time.Microsecond)
+			}
+			if !ready {
+				fmt.Println("FAILED no listener")
+				os.Exit(1)
 			}
 		}
 		svc.Shutdown()
@@ -99,6 +136,9 @@ type c20Case struct {
 	NamesVar string  `json:"names_variant"`
 	Kind     string  `json:"kind"`       // socket | file | pipe : kind of the descriptor that would be selected
 	OtherK   string  `json:"other_kind"` // kind of the descriptors that are not selected
+	// Periods: number of serve periods of the same Service object in the helper process (0 = 1); between two periods
+	// the helper calls Shutdown and forces two garbage collections
+	Periods int `json:"periods,omitempty"`
 }
 
 // c20Model (DESIGN A.6): index of the inherited descriptor (0 = fd 3) that must be served, or -1 = the address.
@@ -318,11 +358,16 @@ func c20One(r *fw.Run, c *c20Case, idx int) {
 		r.Inconclusive("helper start: %v", err)
 		return
 	}
-	lineCh := make(chan string, 1)
+	lineCh := make(chan string, 4)
 	go func() {
 		rd := bufio.NewReader(stdout)
-		l, _ := rd.ReadString('\n')
-		lineCh <- strings.TrimSpace(l)
+		for {
+			l, err := rd.ReadString('\n')
+			lineCh <- strings.TrimSpace(l)
+			if err != nil {
+				return
+			}
+		}
 	}()
 	var line string
 	select {
@@ -394,6 +439,45 @@ func c20One(r *fw.Run, c *c20Case, idx int) {
 			report("unexpected-endpoint-served", "%s answers although the model selects %s", a, expWhat)
 		}
 	}
+	// further serve periods of the same object in the same process: the environment still says "activated", so the same
+	// endpoint is served again (the fallback address differs per period: "<fallback>-p<n>")
+	for period := 2; period <= c.Periods; period++ {
+		fmt.Fprintln(stdin, "NEXT")
+		var l2 string
+		select {
+		case l2 = <-lineCh:
+		case <-time.After(30 * time.Second):
+			report("listen-failed", "period %d: the helper did not report within 30 s", period)
+			cmd.Process.Kill()
+			finish()
+			return
+		}
+		if strings.HasPrefix(l2, "PANIC") {
+			report("panic", "period %d: helper: %s\n%s", period, l2, clip(stderr.String(), 2000))
+			finish()
+			return
+		}
+		if !strings.HasPrefix(l2, "READY") {
+			report("listen-failed", "period %d: Service.Listen in the helper did not serve: %q %s", period, l2, clip(stderr.String(), 500))
+			finish()
+			return
+		}
+		pAddr, pNet, pWhat := fmt.Sprintf("%s-p%d", fallback, period), "unix", fmt.Sprintf("the fallback address of period %d", period)
+		if sel >= 0 {
+			pAddr, pNet, pWhat = names[sel], nets[sel], fmt.Sprintf("inherited descriptor %d (%s) in period %d", 3+sel, kinds[sel], period)
+		}
+		if ok, wrong := c20Probe(pNet, pAddr, product, 10*time.Second); !ok {
+			report("expected-endpoint-not-served", "%s must be served (model), but no GetInfo reply arrived within 10 s; helper reported %q", pWhat, l2)
+		} else if wrong != "" {
+			report("expected-endpoint-not-served", "%s answered with %q", pWhat, clip(wrong, 200))
+		}
+		if sel >= 0 {
+			if ans, _ := c20Probe("unix", fmt.Sprintf("%s-p%d", fallback, period), product, 15*time.Millisecond); ans {
+				report("unexpected-endpoint-served", "period %d: the address argument is served although the model selects %s", period, pWhat)
+			}
+		}
+		r.Count("later_serve_periods", 1)
+	}
 	finish()
 	r.Count("helper_runs", 1)
 	if sel < 0 {
@@ -433,6 +517,13 @@ func runC20(r *fw.Run) {
 			&c20Case{PidMode: "other", FDS: sp(fds), FDNames: sp([]string{"varlink", "x:varlink", "x:varlink:y"}[int(fds[0]-'1')]), NamesVar: "extra", Kind: "tcpsocket", OtherK: "tcpsocket"})
 	}
 	cases = append(cases, &c20Case{PidMode: "own", FDS: sp("1"), NamesVar: "extra", Kind: "tcpsocket", OtherK: "file"})
+	// several serve periods in one activated process
+	for _, fds := range []string{"1", "3"} {
+		for _, kind := range []string{"socket", "tcpsocket", "file"} {
+			cases = append(cases, &c20Case{PidMode: "own", FDS: sp(fds), FDNames: sp([]string{"varlink", "", "x:varlink:y"}[int(fds[0]-'1')]), NamesVar: "extra", Kind: kind, OtherK: "socket", Periods: 3})
+		}
+	}
+	cases = append(cases, &c20Case{PidMode: "other", FDS: sp("1"), NamesVar: "extra", Kind: "socket", OtherK: "socket", Periods: 2})
 	cases = append(cases, &c20Case{PidMode: "own-padded", FDS: sp("1"), NamesVar: "extra", Kind: "socket", OtherK: "socket"},
 		&c20Case{PidMode: "own-suffix", FDS: sp("1"), NamesVar: "extra", Kind: "socket", OtherK: "socket"})
 	for _, fds := range []string{"1x", "1.5", "1,3", "2-1", "3;", "0x1", "1e0", "١"} {
@@ -472,7 +563,7 @@ func replayC20(r *fw.Run, raw json.RawMessage) {
 func init() {
 	fw.Register(&fw.Engine{
 		ID: "C20", Level: "exploration",
-		Rule: "the full product LISTEN_PID in {own pid, other pid, unset, garbage} x LISTEN_FDS in {unset, '', 'foo', '-1', '0', '1', '2', '3'} x LISTEN_FDNAMES in {unset, one entry too many, one too few, varlink first / middle / last / twice / absent with the right arity} x kind of the descriptor that would be selected in {listening unix socket, regular file, pipe} = 768 configurations, enumerated completely (thorough: three times, with the non-selected descriptors being sockets, files, pipes), plus a few spellings outside the product ('+1', '01', ' 1', case and blank variants of 'varlink', an empty name). For each configuration a helper process inherits three distinguishable candidates as descriptors 3,4,5, sets LISTEN_PID as the case says and calls Service.Listen(fallback address). Oracle (model A.6 written from the statement): exactly one endpoint - the selected inherited socket, or the fallback address in every other environment incl. a selected descriptor that is not a socket - answers GetInfo with the helper's unique product string; no other candidate answers; the helper never panics. non-trivial = pid matches or LISTEN_FDS is set; distinct by hash of the configuration. Further spellings outside the product: numeric prefixes (1x, 1.5, 3;), pid with suffix or padding, name prefixes and case variants; whenever a descriptor is selected the address argument names an existing file or socket that must be left alone. Extra cases outside the product: inherited listening TCP sockets (selected: must be served; not selected: must not be).",
+		Rule: "the full product LISTEN_PID in {own pid, other pid, unset, garbage} x LISTEN_FDS in {unset, '', 'foo', '-1', '0', '1', '2', '3'} x LISTEN_FDNAMES in {unset, one entry too many, one too few, varlink first / middle / last / twice / absent with the right arity} x kind of the descriptor that would be selected in {listening unix socket, regular file, pipe} = 768 configurations, enumerated completely (thorough: three times, with the non-selected descriptors being sockets, files, pipes), plus a few spellings outside the product ('+1', '01', ' 1', case and blank variants of 'varlink', an empty name). For each configuration a helper process inherits three distinguishable candidates as descriptors 3,4,5, sets LISTEN_PID as the case says and calls Service.Listen(fallback address). Oracle (model A.6 written from the statement): exactly one endpoint - the selected inherited socket, or the fallback address in every other environment incl. a selected descriptor that is not a socket - answers GetInfo with the helper's unique product string; no other candidate answers; the helper never panics. non-trivial = pid matches or LISTEN_FDS is set; distinct by hash of the configuration. Further spellings outside the product: numeric prefixes (1x, 1.5, 3;), pid with suffix or padding, name prefixes and case variants; whenever a descriptor is selected the address argument names an existing file or socket that must be left alone. Extra cases outside the product: inherited listening TCP sockets (selected: must be served; not selected: must not be). Also: up to three serve periods of the same Service object in one activated process (Shutdown and two forced garbage collections in between, a different address argument per period): each period serves the endpoint the model selects.",
 		Assumptions: []string{"'no other candidate answers' is checked with a 15 ms probe and is one-sided (an answer is a violation); the positive check has a 10 s bound", "descriptor numbers above 5 are not passed, so LISTEN_FDS > 3 is not generated"},
 		Run:         runC20, Replay: replayC20, CrashIsViolation: false, MinEvals: 100,
 		QuickTimeout: 15 * time.Minute, ThoroughTimeout: 60 * time.Minute,
